@@ -52,6 +52,21 @@ func (c18) Run(t *tape.Tape, st *Stats) *Violation {
 		p := refmodel.DrawJPEG(t, withICC, sizes, false, nil)
 		p.BodyLen = body
 		f = refmodel.BuildJPEG(p)
+		// one JPEG in thirty defers its number of lines to a DNL segment behind the
+		// first scan (height 0 in the frame header): the pixel data lies between
+		// the scan header and that segment, and a metadata reader has no business
+		// there - the file cut behind the scan header must load like the whole file
+		if dnl, lines := t.Intn(30) == 0, 1+t.Intn(65535); dnl {
+			for _, fl := range f.Truth.Fields {
+				if fl.Name == "SOF.height" {
+					f.Head[fl.Off], f.Head[fl.Off+1] = 0, 0
+					tail := []byte{0xFF, 0xDC, 0x00, 0x04, byte(lines >> 8), byte(lines), 0xFF, 0xD9}
+					f.TailLen, f.TailFn = int64(len(tail)), func() []byte { return tail }
+					f.Truth.H = 0
+					f.Truth.Desc += fmt.Sprintf(" [number of lines deferred to a DNL segment behind the scan: %d]", lines)
+				}
+			}
+		}
 	default:
 		p := refmodel.DrawWebP(t, -1, withICC, sizes, false)
 		p.BodyLen = body
